@@ -105,6 +105,8 @@ def to_level(v):
     if isinstance(v, dict):
         l = Level()
         for k, x in v.items():
+            if any(t.split('[')[0] in RESERVED for t in norm(k)):
+                raise KeyError(k)            # a plain dict is converted key by key: a reserved method name in it is refused like anywhere else
             m_set(l, k, x)
         return l
     if isinstance(v, list):
@@ -191,6 +193,9 @@ def ops():
     out.append(('setattr', 'a', {'b': 7}))
     out.append(('update', {'a.b': 8, 'c': {'a': 1}}))
     out.append(('set', 'keys', 1))
+    out.append(('set', 'c', {'items': 2}))          # a reserved name inside a plain dict assigned into the tree
+    out.append(('update', {'keys': 1}))
+    out.append(('setdefault', 'b', {'get': 3}))
     out.append(('set', 'a.items', 1))
     out.append(('copy',))
     out.append(('deepcopy',))
@@ -284,6 +289,8 @@ def apply_model(m, op):
                 return ('val', op[2])
         if k == 'update':
             for p, v in op[1].items():
+                if any(t.split('[')[0] in RESERVED for t in norm(p)):
+                    raise KeyError(p)
                 m_set(m, p, copy.deepcopy(v))
             return ('ok',)
     except KeyError:
